@@ -1,6 +1,7 @@
 package main
 
 import (
+	"encoding/json"
 	"fmt"
 	"os"
 	"runtime/pprof"
@@ -103,6 +104,12 @@ func main() {
 		opts := defaultOpts("quick")
 		opts.Verbose = true
 		exitFn(RunCheck(spec, opts))
+	case "replay":
+		// gosmt replay <ID> <file>: run a recorded counterexample against the natively compiled library
+		if len(os.Args) < 4 {
+			usage()
+		}
+		os.Exit(replayFile(os.Args[2], os.Args[3]))
 	case "selftest":
 		os.Exit(selftest())
 	default:
@@ -130,4 +137,40 @@ func solverFromEnv() SolverKind {
 		return SolverZ3New
 	}
 	return SolverZ3New
+}
+
+
+func replayFile(id, path string) int {
+	b, err := os.ReadFile(path)
+	if err != nil {
+		fmt.Println("cannot read replay file:", err)
+		return 3
+	}
+	var f Finding
+	if err := json.Unmarshal(b, &f); err != nil {
+		fmt.Println("cannot parse replay file:", err)
+		return 3
+	}
+	key := keyForPkgPath(f.Pkg)
+	if key == "" {
+		fmt.Println("unknown package in replay file:", f.Pkg)
+		return 3
+	}
+	eng, err := LoadEngine([]string{key})
+	if err != nil {
+		fmt.Println("load:", err)
+		return 3
+	}
+	outs, err := nativeReplay(eng, []Finding{f})
+	if err != nil {
+		fmt.Println("replay:", err)
+		return 3
+	}
+	o := outs[0]
+	fmt.Printf("replay of %s%v (%s %q): native result=%s label=%q reached=%v known=%v\n", f.Harness, f.Shape, f.Kind, f.Label, o.Result, o.Label, o.Reached, o.Known)
+	if o.Result == "fail" || o.Result == "panic" {
+		fmt.Printf("VIOLATION property=%s replay=%s\n", id, path)
+		return 1
+	}
+	return 0
 }
